@@ -320,9 +320,9 @@ def stress(tier: str):
         add("pow:calc:" + e[:24], len(e), rep % e)
         add("pow:eval:" + e[:24], len(e), "function f() { $x = EVAL(%s); }" % e, "#bind EVAL")
         add("pow:expr:" + e[:24], len(e), "function f() { $x := %s; }" % e)
-        add("pow:expr-var:" + e[:24], len(e), "function f() { $x := $y ** (%s); }" % e)
-    for e in ["$y ** 2147483647", "$y ** 99999999", "$y ** 4294967296", "$y * 2147483647 ** 2147483647", "2 ** $y",
-              "$y ** 65536 ** 2"]:
+        if tier != "quick":     # (a huge constant exponent: the listed finding C13-unbounded-count; every one costs a whole alarm)
+            add("pow:expr-var:" + e[:24], len(e), "function f() { $x := $y ** (%s); }" % e)
+    for e in ["$y ** 2147483647", "$y ** 99999999", "$y ** 4294967296", "$y * 2147483647 ** 2147483647", "2 ** $y"][:5 if tier != "quick" else 2]:
         add("pow:var:" + e, len(e), "function f() { $x := %s; }" % e)
     for n in (100 * k, 400 * k):
         add("chain:expr-plus", n, "function f() { $x := 1" + " + 1" * n + "; }")
